@@ -96,7 +96,7 @@ func buildThrottleComponent(w *World, fault bool) (*throttleModel, error) {
 	iface := rec.Underlying().(*types.Interface)
 	for i := 0; i < iface.NumMethods(); i++ {
 		name := iface.Method(i).Name()
-		fn := w.Prog.LookupMethod(types.NewPointer(T), pkg.Pkg, name)
+		fn := findMethod(w.Prog, T, name)
 		if fn == nil {
 			return nil, fmt.Errorf("ThrottledRecorder lacks method %s", name)
 		}
